@@ -13,6 +13,8 @@ mod cmds {
 }
 
 pub static ALLOC_CAP: AtomicUsize = AtomicUsize::new(512 << 20);
+/// the cap in force when no per-case cap is set (VH_ALLOC_CAP or 512 MiB); restored before each case
+pub static ALLOC_CAP_DEFAULT: AtomicUsize = AtomicUsize::new(512 << 20);
 pub static ALLOC_TRIPPED: AtomicBool = AtomicBool::new(false);
 pub static ALLOC_MAX_SEEN: AtomicUsize = AtomicUsize::new(0);
 
@@ -59,6 +61,7 @@ fn main() {
     if let Ok(c) = std::env::var("VH_ALLOC_CAP") {
         if let Ok(n) = c.parse::<usize>() {
             ALLOC_CAP.store(n, Ordering::Relaxed);
+            ALLOC_CAP_DEFAULT.store(n, Ordering::Relaxed);
         }
     }
     std::panic::set_hook(Box::new(|info| {
@@ -90,6 +93,17 @@ fn main() {
             found.unwrap_or(loc)
         } else {
             loc
+        };
+        // VH_PANIC_LOC: keep the raw file:line in the message too (corpus building groups the
+        // witnesses by panic site)
+        let msg = if std::env::var("VH_PANIC_LOC").is_ok() {
+            let raw = info
+                .location()
+                .map(|l| format!("{}:{}", l.file(), l.line()))
+                .unwrap_or_default();
+            format!("{} [at {}]", msg, raw)
+        } else {
+            msg
         };
         LAST_PANIC.with(|p| *p.borrow_mut() = format!("{} @ {}", msg, loc));
     }));
@@ -135,6 +149,7 @@ fn main() {
         }
         ALLOC_TRIPPED.store(false, Ordering::Relaxed);
         ALLOC_MAX_SEEN.store(0, Ordering::Relaxed);
+        ALLOC_CAP.store(ALLOC_CAP_DEFAULT.load(Ordering::Relaxed), Ordering::Relaxed);
         CASE_START.store(now_ms(), Ordering::Relaxed);
         let res = std::panic::catch_unwind(std::panic::AssertUnwindSafe(|| cmds::dispatch(cmd, args)));
         CASE_START.store(0, Ordering::Relaxed);
@@ -168,6 +183,21 @@ fn now_ms() -> usize {
 /// message and location of the last panic on this thread (tabs and newlines removed)
 pub fn last_panic() -> String {
     LAST_PANIC.with(|p| p.borrow().clone()).replace(['\t', '\n'], " ")
+}
+/// VH_ALLOC_REL="base:mult": for the running case only, lower the single-request allocation cap to
+/// base + mult * input_len bytes (never above the default cap).  Used by the `open` command so that
+/// "memory out of proportion to the input" is measured against the size of the file.
+pub fn set_relative_alloc_cap(input_len: usize) {
+    if let Ok(v) = std::env::var("VH_ALLOC_REL") {
+        let mut it = v.split(':');
+        let base = it.next().and_then(|x| x.parse::<usize>().ok());
+        let mult = it.next().and_then(|x| x.parse::<usize>().ok());
+        if let (Some(base), Some(mult)) = (base, mult) {
+            let cap = base.saturating_add(mult.saturating_mul(input_len));
+            let cap = cap.min(ALLOC_CAP_DEFAULT.load(Ordering::Relaxed));
+            ALLOC_CAP.store(cap, Ordering::Relaxed);
+        }
+    }
 }
 pub fn verbose_panics() -> bool {
     std::env::var("VH_PANIC_INFO").is_ok()
